@@ -244,9 +244,9 @@ def model_calls(calls) -> List[Any]:
 
 def translate(ctx: C.Ctx) -> List[str]:
     """The shared tree model reads two extracted flags (see c07.translate); C17 itself does not depend on them."""
-    from props import c07
+    from props import c07, c14
     c07.translate(ctx)
-    return []
+    return c14.translate_backends(ctx)
 
 
 def correspond(ctx: C.Ctx, cov: C.Coverage) -> List[C.Disagreement]:
